@@ -122,6 +122,50 @@ def extract(force=False):
         lock.close()
 
 
+
+# --------------------------------------------------------------------------- positive-control fixture
+
+def extract_fixture(name="poscontrol"):
+    """facts of /verif/fixtures/<name> (a dependency-free crate of constructs the zero-count rules must report)"""
+    fdir = os.path.join(VERIF, "fixtures", name)
+    os.makedirs(CACHE, exist_ok=True)
+    lock = open(os.path.join(CACHE, "extract.lock"), "w")
+    fcntl.flock(lock, fcntl.LOCK_EX)
+    try:
+        build_driver()
+        h = hashlib.sha256()
+        for root, dirs, fs in os.walk(fdir):
+            dirs[:] = [d for d in dirs if d != "target"]
+            for f in sorted(fs):
+                with open(os.path.join(root, f), "rb") as fh:
+                    h.update(f.encode() + b"\0" + fh.read())
+        with open(os.path.join(DRIVER_DIR, "src", "main.rs"), "rb") as fh:
+            h.update(fh.read())
+        out = os.path.join(CACHE, "fixture-%s-%s" % (name, h.hexdigest()[:16]))
+        if os.path.exists(os.path.join(out, "OK")):
+            return out
+        if os.path.exists(out):
+            shutil.rmtree(out)
+        os.makedirs(out)
+        target = os.path.join(CACHE, "fixture-target")
+        shutil.rmtree(os.path.join(target, "debug", ".fingerprint"), ignore_errors=True)
+        ns = nightly_sysroot()
+        env = dict(os.environ)
+        env.update({"LD_LIBRARY_PATH": ns + "/lib", "RUSTC": ns + "/bin/rustc", "RUSTC_WORKSPACE_WRAPPER": DRIVER,
+                    "RUSTFLAGS": "-Zmir-opt-level=0 -Awarnings", "CARGO_NET_OFFLINE": "true", "GUARD_FACTS_OUT": out,
+                    "CARGO_TARGET_DIR": target})
+        env.pop("RUSTUP_TOOLCHAIN", None)
+        r = subprocess.run(["cargo", "+nightly", "check", "--offline"], cwd=fdir, env=env, stdout=subprocess.PIPE, stderr=subprocess.STDOUT, text=True)
+        if r.returncode != 0 or not any(f.endswith(".json") for f in os.listdir(out)):
+            sys.stderr.write(r.stdout[-3000:])
+            raise SystemExit("positive-control fixture failed to compile under the fact extractor")
+        with open(os.path.join(out, "OK"), "w") as fh:
+            fh.write("ok")
+        return out
+    finally:
+        fcntl.flock(lock, fcntl.LOCK_UN)
+        lock.close()
+
 # --------------------------------------------------------------------------- loading
 
 class Crate:
